@@ -216,6 +216,10 @@ def ts_stk(prog):
     errs = []
     if len(pp) != 1 or not all(popf.cfg.dominates(pp[0].bb, r) for r in popf.cfg.returns):
         errs.append("%spop must pop exactly one state on every path (found %d pop sites)" % ("?" if not pp else "", len(pp)))
+    for cs in popf.terms.calls:
+        if cs.callee.name == "truncate" and "state_stack" in show(cs.args[0]) and cs not in pp and len(cs.args) == 2:
+            errs = [e for e in errs if not e.startswith("?")]
+            errs.append("pop shortens the state stack to %s: it must drop exactly the last state" % show(cs.args[1])[:60])
     if _stack_calls(popf, "push"):
         errs.append("pop pushes")
     out.append(inst("TS-STK", "%s:pop-one" % popf.npath, VIOLATION if errs else OK, popf, None,
